@@ -247,6 +247,49 @@ def h_doc(params, h0: str, h1: str):
         dc.io = saved
 
 
+LONG_GLOBS = ["debian/patches/0001-fix-build-with-newer-toolchain.patch", "src/third-party/some-vendored-library-with-a-long-name/*", "RCS/*,v",
+              "docs/reference-manual/chapter-12/*.xml", "data/table_1,2.csv", "a", "tests/fixtures/very-long-directory-name-for-regression-tests/case-0001/*",
+              "po/*.po", "x" * 90, "lib/well-known/nested-sub-directory/with-hyphens-everywhere/and-more-hyphens/file-name.c"]
+LONG_LINES = ["2001-2024 Some Very Long Organisation Name With Many Words, Incorporated <legal-department@very-long-domain-name.example.org>",
+              "2019 B", "w" * 200, "hyphen-" * 30 + "end", "short", "  indented and long: " + "lorem-ipsum dolor sit amet, " * 8]
+
+
+def h_long(params, k: int, m: int, n: int, rot: int):
+    """Sizes as symbolic variables: k Files patterns, m copyright lines, n license text lines from catalogues of
+    long values (joined pattern lists of 0..600 characters, lines of up to 240 characters)."""
+    assume(1 <= k <= len(LONG_GLOBS) and 1 <= m <= len(LONG_LINES) and 0 <= n <= len(LONG_LINES) and 0 <= rot < 3)
+    if params.get("thin"):
+        assume(rot == (k + m + n) % 3)
+    pats = [LONG_GLOBS[(i + rot * 3) % len(LONG_GLOBS)] for i in range(k)]
+    cps = [LONG_LINES[(i + rot) % len(LONG_LINES)].strip() for i in range(m)]
+    lts = [LONG_LINES[(i + 2 * rot) % len(LONG_LINES)] for i in range(n)]
+    t = tuple(pats)
+    sp = _SpaceSeparated.to_str(t)
+    require(_SpaceSeparated.from_str(sp) == t, "_SpaceSeparated round trip on a long list", t=t, s=sp, back=_SpaceSeparated.from_str(sp))
+    saved = dc.io
+    dc.io = IoShim()
+    try:
+        c = Copyright()
+        c.header.upstream_name = "pkg"
+        lic = License("GPL-2+ with a-very-long-exception-name-exception", "\n".join(lts))
+        cp = "\n ".join(cps)
+        c.add_files_paragraph(FilesParagraph.create(pats, cp, lic))
+        c.add_license_paragraph(LicenseParagraph.create(License("MIT", "\n".join(lts[::-1]) or "Permission")))
+        s1 = c.dump()
+        c2 = Copyright(s1.splitlines(True), strict=True)
+        fps = list(c2.all_files_paragraphs())
+        require(len(fps) == 1, "paragraph kinds", text=s1)
+        require(fps[0].files == t, "pattern list after dump and re-parse", got=fps[0].files, want=t, text=s1)
+        require(fps[0].copyright == cp, "copyright text after dump and re-parse", got=fps[0].copyright, want=cp)
+        require(fps[0].license == lic, "license of the Files paragraph after dump and re-parse", got=tuple(fps[0].license), want=tuple(lic))
+        require(_summary(c2) == _summary(c), "re-parsed document differs", before=_summary(c), after=_summary(c2))
+        require(c2.dump() == s1, "second dump differs")
+    finally:
+        dc.io = saved
+    if k >= 3:
+        reach(params, "long-list")
+
+
 def partitions(tier, seed):
     P = []
     q = tier == "quick"
@@ -276,6 +319,9 @@ def partitions(tier, seed):
             for hname in ("h_space", "h_linebased"):
                 P.append(dict(name="%s/%s" % (hname[2:], "-".join(map(str, lens)) or "empty"), harness=hname, params=dict(n=n, lens=list(lens)),
                               budget=60 if q else 400, reach=[], bounds="tuple of %d values, lengths %s" % (n, list(lens))))
+    P.append(dict(name="long/sizes", harness="h_long", params=dict(thin=True) if q else {}, budget=100 if q else 1500, reach=["long-list"],
+                  bounds="1..%d long Files patterns x 1..%d copyright lines x 0..%d license lines (counts symbolic; values from catalogues, lines up to 240 chars)%s"
+                         % (len(LONG_GLOBS), len(LONG_LINES), len(LONG_LINES), "; one rotation per size triple" if q else "; 3 rotations")))
     holes = [("pat",), ("cp1",), ("cp2",), ("syn",), ("lt1",), ("lt2",), ("uname",), ("pat2",)]
     if not q:
         holes += [("pat", "lt1"), ("cp2", "lt2"), ("syn", "cp1"), ("lt1", "lt2")]
